@@ -63,10 +63,24 @@ type Config struct {
 	TLS        bool   `json:"tls,omitempty"`
 	Renderer   int    `json:"renderer,omitempty"` // 0 default, 1 custom (418), 2 silent
 	MaxSteps   int    `json:"max_steps,omitempty"`
+	WireCut    *WireCut `json:"wire_cut,omitempty"` // the connection breaks after exactly this many bytes were delivered in one direction
 	ProxyMode  int    `json:"proxy,omitempty"`
 	Extra      []ExtraMethod `json:"extra,omitempty"`  // registered methods no RPC targets
 	Decor      []LayerSpec   `json:"decor,omitempty"`  // server decoration layers, outermost first
 	ClientInt  []LayerSpec   `json:"client_int,omitempty"` // client interceptor layers, outermost first
+}
+
+// WireCut is a connection loss at an exact byte offset of one direction of an
+// HTTP connection: the first Offset bytes written in that direction arrive,
+// then the reader sees a clean end (FIN) or a reset, everything else is lost
+// and both writers get errors.
+type WireCut struct {
+	Dir        string `json:"dir"`  // "s2c" (reply) or "c2s" (request)
+	Conn       int    `json:"conn"` // index of the connection (dial order)
+	Offset     int    `json:"offset"`
+	Reset      bool   `json:"reset,omitempty"`
+	TrailerEnd int    `json:"trailer_end,omitempty"` // s2c: wire offset just past the last byte of the reply's final trailer frame (unary: of the body) in the uncut baseline run; 0 = unknown
+	Total      int    `json:"total,omitempty"`       // bytes written in that direction in the uncut baseline run
 }
 
 type ExtraMethod struct {
